@@ -4,7 +4,7 @@
 (* all operations incl. the failing ones and both parallel constructors.                          *)
 EXTENDS PatchWorld
 
-CONSTANT MaxLen
+CONSTANTS MaxLen, AllowDups     \* AllowDups: an archive may be added while it is in the chain
 Arch   == StdArchives \cup {Bogus}
 Pairs  == [a : Arch, p : StdPrios]
 \* argument lists of the parallel constructors: all lists of <= 1 element, the 2-element lists over
@@ -17,13 +17,13 @@ Menu   == { <<[a |-> "A1", p |-> 0], [a |-> "A2", p |-> 5], [a |-> "A3", p |-> 0
             <<[a |-> "A4", p |-> -1], [a |-> "A1", p |-> 5], [a |-> "A4", p |-> -1], [a |-> "A2", p |-> 5]>>,
             <<[a |-> "A1", p |-> 0], [a |-> "AX", p |-> 5], [a |-> "A3", p |-> 0]>> }
 Lists  == IF MaxLen <= 3
-          THEN {<<>>} \cup {<<x>> : x \in Pairs2} \cup {<<x, y>> : x, y \in Pairs3} \cup Menu
+          THEN {<<>>} \cup {<<x>> : x \in Pairs2} \cup Menu        \* (all 2- and 3-lists: ParAgree below)
           ELSE {<<>>, <<[a |-> "AX", p |-> 0]>>} \cup {<<x>> : x \in Pairs3} \cup Menu
 
 Init == vchain = <<>> /\ vmap = [n \in NamesOf(StdWorld) |-> 0]
 
 DoNew          == New
-DoAdd          == \E a \in StdArchives, p \in StdPrios : AddArchive(a, p)
+DoAdd          == \E a \in StdArchives, p \in StdPrios : (AllowDups \/ PosOf(vchain, a) = 0) /\ AddArchive(a, p)
 DoAddFail      == AddArchiveFail(Bogus)
 DoRemove       == \E a \in StdArchives : RemoveArchive(a)
 DoRemoveAbsent == \E a \in Arch : RemoveAbsent(a)
@@ -33,7 +33,7 @@ DoClear        == Clear
 \* the constructor does not look at the current chain: exploring it from the empty chain loses nothing
 DoFromPar      == vchain = <<>> /\ \E l \in Lists : FromParallel(l)
 DoFromParFail  == vchain = <<>> /\ \E l \in Lists : FromParallelFail(l)
-DoAddPar       == \E l \in Lists : AddParallel(l)
+DoAddPar       == \E l \in Lists : (AllowDups \/ \A i \in 1..Len(l) : PosOf(vchain, l[i].a) = 0) /\ AddParallel(l)
 DoAddParFail   == \E l \in Lists : AddParallelFail(l)
 Next == \/ DoNew \/ DoAdd \/ DoAddFail \/ DoRemove \/ DoRemoveAbsent \/ DoSet \/ DoSetFail \/ DoClear
         \/ DoFromPar \/ DoFromParFail \/ DoAddPar \/ DoAddParFail
@@ -44,6 +44,12 @@ Bound == Len(vchain) <= MaxLen
 Lists3 == Lists \cup {<<x, y>> : x, y \in [a : StdArchives, p : StdPrios]}
           \cup {<<x, y, z>> : x, y, z \in [a : {"A1", "A2", "A3"}, p : {0, 5}]}
 ASSUME ParAgree == \A l \in Lists3 : AllExist(StdWorld, l) => ParallelAgrees(StdWorld, l)
+\* the three former deviations of the code are refuted on concrete chains (what the check reported before the fixes)
+Ch(l) == SeqBuild(<<>>, l)
+ASSUME DevRefuted ==
+  /\ DevRefutedOn("d1", Ch(<<[a |-> "A4", p |-> 5], [a |-> "A1", p |-> 0], [a |-> "A2", p |-> -1]>>))
+  /\ DevRefutedOn("d2", Ch(<<[a |-> "A2", p |-> 5], [a |-> "A1", p |-> 0]>>))
+  /\ DevRefutedOn("d3", Ch(<<[a |-> "A3", p |-> 5], [a |-> "A1", p |-> 0]>>))
 \* the deviation of SetPriority is real: re-prioritising to the *same* priority can change the winner
 ASSUME SetPrioDeviates ==
   LET c0 == SeqBuild(<<>>, <<[a |-> "A1", p |-> 0], [a |-> "A2", p |-> 0]>>)
